@@ -16,6 +16,7 @@ import (
 	"strconv"
 	"strings"
 	"sync"
+	"syscall"
 	"testing"
 
 	"pgregory.net/rapid"
@@ -333,12 +334,46 @@ func runFitgen(bin, input, ver, out string, viaZip, override, hrst bool) (string
 		// a relative output directory, resolved against the command's
 		// working directory (= the directory that holds the input)
 		cmd.Dir = filepath.Dir(input)
+		// ... and, where the machine has one, a temporary directory on
+		// another filesystem than the output (TMPDIR on tmpfs, sources on disk)
+		if td := otherFilesystem(filepath.Dir(input)); td != "" {
+			cmd.Env = append(os.Environ(), "TMPDIR="+td)
+		}
 	}
 	var buf bytes.Buffer
 	cmd.Stdout = &buf
 	cmd.Stderr = &buf
 	err := cmd.Run()
 	return buf.String(), err
+}
+
+var (
+	otherFSOnce sync.Once
+	otherFSDir  string
+)
+
+// otherFilesystem returns a writable directory on a different filesystem than
+// ref ("" if the machine has none among the usual candidates).
+func otherFilesystem(ref string) string {
+	otherFSOnce.Do(func() {
+		var rs syscall.Stat_t
+		if syscall.Stat(ref, &rs) != nil {
+			return
+		}
+		for _, cand := range []string{"/dev/shm", "/run/shm", "/tmp", "/var/tmp", "/run"} {
+			var cs syscall.Stat_t
+			if syscall.Stat(cand, &cs) != nil || cs.Dev == rs.Dev {
+				continue
+			}
+			d, err := os.MkdirTemp(cand, "verif-c19-tmp-")
+			if err != nil {
+				continue
+			}
+			otherFSDir = d
+			return
+		}
+	})
+	return otherFSDir
 }
 
 // checkSelection runs the real command twice on the selection and checks its
@@ -589,6 +624,9 @@ func TestC19(t *testing.T) {
 		defer func() {
 			if fitgenBin != "" {
 				os.Remove(fitgenBin)
+			}
+			if otherFSDir != "" {
+				os.RemoveAll(otherFSDir)
 			}
 		}()
 		if rp, ok := hx.LoadReplay(); ok {
